@@ -402,7 +402,7 @@ int main(int argc, char** argv) {
   const char* outdir = ".";
   const char* replay = 0;
   const char* name = "harness";
-  int verbose = 0, pmin = 0, discover = 0, envall = 0, atomicfilter = 0, precise = 0, focus = 0;
+  int verbose = 0, pmin = 0, discover = 0, envall = 0, atomicfilter = 0, precise = 0, focus = 0, weakrmw = 0;
   for (int i = 1; i < argc; i++) {
     char* a = argv[i];
     if (!strncmp(a, "-P", 2)) P = atoi(a + 2);
@@ -427,6 +427,7 @@ int main(int argc, char** argv) {
     else if (!strcmp(a, "-envall")) envall = 1;
     else if (!strcmp(a, "-atomicfilter")) atomicfilter = 1;
     else if (!strcmp(a, "-focus")) focus = 1;
+    else if (!strcmp(a, "-weakrmw")) weakrmw = 1;
     else if (!strcmp(a, "-precise")) precise = 1;
     else if (!strcmp(a, "-noprecise")) precise = 0;
     else if (!strcmp(a, "-stop")) stop_on_fail = 1;
@@ -448,6 +449,7 @@ int main(int argc, char** argv) {
   SH->atomicfilter = atomicfilter;
   SH->precise = precise;
   SH->focus = focus;
+  SH->weakrmw = weakrmw;
   if (replay) return do_replay(replay, verbose);
 
   start_workers();
